@@ -52,6 +52,7 @@ Definition enc_event (e : event) : sx :=
   | EvExit id t called caught cnt sw exc =>
       L [A 2; of_nat id; of_nat t; of_bool called; of_bool caught; of_nat cnt; of_bool sw; of_nat exc]
   | EvCatch id t exc => L [A 3; of_nat id; of_nat t; of_nat exc]
+  | EvExt t => L [A 4; of_nat t]
   end.
 
 (* outcome of the task: 0 returned, 1 cancelled, 2 TimeoutError, 3 other exception, 8 out of fuel, 9 loop blocked *)
@@ -63,7 +64,7 @@ Definition outcome (st : state) : nat :=
   end.
 
 Definition run_case (p : prog) (timers : list nat) (turns : list (nat * bool)) (k fuel : nat) : state :=
-  run_steps fuel (init exit_takes_back_leftover p timers turns k).
+  run_steps fuel (init exit_takes_back_leftover uncancel_message_fallback p timers turns k).
 
 Definition run (x : sx) : sx :=
   match x with
